@@ -333,7 +333,8 @@ func (w *world) apply(op *Op) (o Out) {
 				w.fail("term", "Term(0) = (%d, err %d)", t, o.E)
 			}
 		case op.I > ml:
-			if o.E != 2 {
+			// a store without any entry answers 'compacted' (MemoryStorage: 'unavailable'); raft never asks there
+			if o.E != 2 && !(ml < mf && o.E == 1) {
 				w.fail("term", "Term(%d) beyond last %d: err class %d, want unavailable", op.I, ml, o.E)
 			}
 		case op.I < mf:
